@@ -191,7 +191,16 @@ func (g *richGen) funcDecl(v *Vocab, depth int, strOnly bool) D {
 			g.Stats["js_with_context"]++
 			script = "'jsn:' + _node.length + ':' + _node + [" + strings.Join(terms, ",") + "].join('|')"
 		}
+		// which of the four names are defined at all is part of the result: only the ones this call passes may be
+		script += " + '/' + [typeof p0, typeof p1, typeof p2, typeof p3].join(',')"
+		throws := len(used) > 0 && r.Chance(1, 5)
 		variant := r.Intn(5)
+		if throws {
+			// a script that fails after its arguments were set; the failure is ignored (the call yields no value)
+			script = "(function(){ if (" + names[used[0]] + " !== undefined) { throw new Error('refused') } return 'unreachable' })()"
+			variant = 3
+			g.Stats["js_script_that_throws_with_ignore_error"]++
+		}
 		if strOnly && variant > 0 {
 			variant = 3 // arrays / objects are not valid string arguments
 		}
@@ -226,6 +235,13 @@ func (g *richGen) funcDecl(v *Vocab, depth int, strOnly bool) D {
 	}
 	if r.Chance(1, 6) {
 		cf["ignore_error"] = true
+	}
+	if sc, ok := cf["args"].([]interface{}); ok && len(sc) > 0 {
+		if first, ok := sc[0].(D); ok {
+			if txt, _ := first["const"].(string); strings.Contains(txt, "throw new Error('refused')") {
+				cf["ignore_error"] = true
+			}
+		}
 	}
 	d := D{"custom_func": cf}
 	if g.o.AllowUp && name == "javascript_with_context" && len(v.Up) > 0 && r.Chance(1, 2) {
